@@ -9,11 +9,20 @@ _C15_BASES = "bases: 1 tet; 2 tets sharing a face; 3 tets closed around an edge;
 _C15_CPQ = 4      # collapse cases per query (C15_collapse.cpp)
 
 def _c15_order(bases, preops):
-    # one tet: one query; larger bases: two queries (cells + first half of the halffaces / second half)
-    return [{0: b, 1: p, 2: part} for b in bases for p in preops for part in ([0] if b == _T_ONE else [1, 2])]
+    # one tet: one query; larger bases: N queries (part 0 = cells + first range of halffaces, the others = further ranges of halffaces)
+    out = []
+    for b in bases:
+        n = 1 if b == _T_ONE else (3 if b == _T_RING else 2)
+        out += [{0: b, 1: p, 2: part, 3: n} for p in preops for part in range(n)]
+    return out
 
 def _c15_labels(cells, kinds):
-    return [{0: b, 1: c, 2: k} for (b, c) in cells for k in kinds]
+    # kinds with a free symbolic start vertex a (0, 2) are the expensive ones: one query per halfface abc; the others: all four in one
+    out = []
+    for (b, c) in cells:
+        for k in kinds:
+            out += [{0: b, 1: c, 2: k, 3: h} for h in ([1, 2, 3, 4] if k in (0, 2) else [0])]
+    return out
 
 def _c15_all_cells():
     return [(b, c) for b in sorted(_C15_COUNTS) for c in range(_C15_COUNTS[b][3])]
@@ -51,14 +60,14 @@ PROPS["C15"] = dict(
                  "thorough": _c15_order(range(5), range(8))},
          timeout={"quick": 300, "thorough": 900}, mem_gb=4,
          bounds=_C15_BASES + ", optionally after one swap_{cell,face,edge,vertex}_indices(first,last) or delete_cell(0) in immediate / deferred / fast mode; "
-                "EVERY live cell and EVERY halfface of the mesh is queried (enumerated, constant); free symbolic: the vertex argument vh (any vertex index of the mesh) of "
+                "EVERY live cell and EVERY halfface of the mesh is queried (enumerated, constant; larger bases split over 2-3 shards by halfface range); free symbolic: the vertex argument vh (any vertex index of the mesh) of "
                 "get_cell_vertices(ch,vh) / vertex_opposite_halfface / get_halfface_vertices(hfh,vh) and the halfedge argument heh (any halfedge index) of "
                 "get_cell_vertices(hfh,heh) / get_halfface_vertices(hfh,heh); tv_iter / tet_vertices compared element-wise with the brute-force tuple"),
     dict(name="c15-labels", harness="C15_labels.cpp", entries=["harness_c15_labels"], units=_C15_UNITS, unwind=40, checks="none", object_bits=13,
          shards={"quick": _c15_labels([(_T_ONE, 0)], range(6)) + _c15_labels([(_T_FACE, 1)], [0, 4]) + _c15_labels([(_T_RING, 2)], [2]),
                  "thorough": _c15_labels(_c15_all_cells(), range(6))},
-         timeout={"quick": 300, "thorough": 900}, mem_gb=4,
-         bounds=_C15_BASES + "; shard = (base, cell, constructor kind of TetTopology: (ch,abc,a) (ch,abc) (abc,a) (abc) (ch,a) (ch)); all 4 halffaces abc of the cell enumerated; "
+         timeout={"quick": 300, "thorough": 900}, mem_gb=6,
+         bounds=_C15_BASES + "; shard = (base, cell, constructor kind of TetTopology: (ch,abc,a) (ch,abc) (abc,a) (abc) (ch,a) (ch)); all 4 halffaces abc of the cell enumerated (one per shard for the kinds with a symbolic start vertex); "
                 "free symbolic: vertex a among the 3 vertices of abc, halfedge label index 0..11, halfface label index 0..23 (+ the 8 start-less labels through them), "
                 "probe vertex / halfedge / halfface of get_label over all indices of the mesh, start vertex of TriangleTopology(mesh,hfh,a); "
                 "constexpr label algebra (hel, hel_from/to, hfl_vl, hfl_hel, opposite, inner/outer) for all 12 + 32 labels"),
@@ -74,12 +83,12 @@ PROPS["C15"] = dict(
          bounds="K=1 inherited operation (delete_vertex/edge/face/cell for every entity, swap_*_indices for every ordered pair; then collect_garbage in deferred mode) chosen by a symbolic "
                 "selector (8 constant argument tuples per query) on 1 tet / 2 tets sharing a face; afterwards every stored face has valence 3, every stored cell valence 4, every live cell 4 distinct vertices"),
     dict(name="c15-collapse", harness="C15_collapse.cpp", entries=["harness_c15_collapse"], units=_C15_UNITS_PROPS, unwind=64, checks="none", object_bits=13, witness_any=True,
-         shards={"quick": _c15_collapse([_T_ONE], [0, 1, 2]) + _c15_collapse([_T_FACE], [0, 1, 2], [2, 3, 6, 7], per=2) + _c15_collapse([_T_FACE], [3], [2, 3], per=2) + _c15_deep([_T_FACE], [0, 1], [6]),
+         shards={"quick": _c15_collapse([_T_ONE], [0, 1, 2]) + _c15_collapse([_T_FACE], [0, 1], [2, 3, 6, 7], per=2) + _c15_collapse([_T_FACE], [2], [4, 5, 6, 7, 12, 13, 14, 15], per=1) + _c15_collapse([_T_FACE], [3], [3], per=2) + _c15_deep([_T_FACE], [0], [6]),
                  "thorough": _c15_collapse([_T_ONE], range(4)) + _c15_collapse([_T_FACE], range(4), per=2) + _c15_collapse([_T_RING, _T_EDGE, _T_VERTEX], [0, 1, 2], per=2)
-                             + _c15_deep([_T_FACE, _T_RING], [0]) + _c15_deep([_T_EDGE], [3])},
+                             + _c15_deep([_T_FACE], [0, 1]) + _c15_deep([_T_RING], [0]) + _c15_deep([_T_EDGE], [3])},
          timeout={"quick": 300, "thorough": 900}, mem_gb=5,
-         bounds=_C15_BASES + "; collapse_edge(he) for the halfedges of the shard's chunk (4 per query, symbolic selector; quick: all 12 halfedges of the single tet in 3 modes, halfedges 4-7 and 12-15 of the "
-                "face-sharing pair in the 4 modes; thorough: every halfedge of every base in the deletion modes immediate, deferred, fast; fast+deferred only on the two small bases - collapse_edge never collects garbage in deferred mode, so it coincides with deferred) that satisfy the simplicial link condition Lk(a) n Lk(b) = Lk(ab) "
+         bounds=_C15_BASES + "; collapse_edge(he) for the halfedges of the shard's chunk (1-4 per query, symbolic selector; quick: all 12 halfedges of the single tet in 3 modes, halfedges 4-7 and 12-15 of the "
+                "face-sharing pair in immediate / deferred / fast mode, 6-7 in fast+deferred; thorough: every halfedge of every base in the deletion modes immediate, deferred, fast; fast+deferred only on the two small bases - collapse_edge never collects garbage in deferred mode, so it coincides with deferred) that satisfy the simplicial link condition Lk(a) n Lk(b) = Lk(ab) "
                 "(brute force in the harness); int cell-property values free symbolic; 'deep' shards (one halfedge per query) additionally run the vertex-order contracts with free symbolic "
                 "vertex / halfedge arguments on the collapsed mesh"),
   ],
